@@ -184,6 +184,13 @@ pub fn cap_address_space(bytes: u64) -> u64 {
     if cur != 0 {
         return cur;
     }
+    // Under the libFuzzer/ASan build the shadow memory needs terabytes of address space: there
+    // libFuzzer's own -rss_limit_mb / -malloc_limit_mb guard the sandbox, and every input it saves is
+    // re-judged in the ordinary (capped) build.
+    if std::env::var_os("VFUZZ_PROP").is_some() {
+        IN_FORCE.store(u64::MAX, Ordering::Relaxed);
+        return u64::MAX;
+    }
     let in_force;
     unsafe {
         let mut rl: libc::rlimit = std::mem::zeroed();
